@@ -97,6 +97,12 @@ TEXTS = {
         "level_note": "Trusted: the slot table of (entry, bound, open/closed) confirmed against docstrings and tests; T-OPS; searchsorted adds eps to the last knot only (C20).",
         "technique": "static guard dominance with canonical min/max atoms + units lattice on knot vectors + call-site rule",
     },
+    "C20": {
+        "level_text": "Structural specification checks for every exported helper, for all shapes and arguments: no helper mutates an argument (ownership analysis), reshape helpers have the documented symbolic layout and are single reshapes of one row-major buffer, sum_except_batch reduces exactly the non-batch axes, the bin search is the half-open comparator sum with the epsilon on the last knot only, mask constructors have the stated pattern/count structure, predicates and TypeError validation have their documented structure, helper dtypes follow their tensor arguments, and cbrt/logabsdet handle signs. Cube-root and log-abs-det numerics are NOT decided.",
+        "design_ref": "DESIGN.md 2.C20",
+        "level_note": "Trusted: T-OPS (reshape/expand/repeat/transpose layouts, multinomial without replacement, slogdet components). D5 (searchsorted mutated its argument) and the KDE dtype defect were repaired in /repo.",
+        "technique": "static ownership analysis + symbolic layout evaluation + normal-form comparison of helper bodies + dtype provenance",
+    },
 }
 
 NOT_CLAIMED = {}
